@@ -677,9 +677,15 @@ def check_c11(ctx, R):
         else:
             R.bad("H4", "%s|%s" % (iv.key, k), iv.loc(), "is_valid has no case for references to %s: they would fall through and report invalid (or never be checked)" % k)
     # is_valid must return True only at the top instance test
-    trues = [r for r in walk_local(iv.node) if isinstance(r, ast.Return) and isinstance(r.value, ast.Constant) and r.value.value is True]
-    if len(trues) == 1 and any(isinstance(p, ast.If) and "top_instance" in norm(p.test) for p in parent_chain(trues[0])):
-        R.ok("H4", "validity is established only at the netlist's top instance", iv.loc(trues[0]))
+    # every return that can yield a true value is the comparison with the top instance (as `if top == item: return True` or as
+    # `return top == item`)
+    maybe_true = [r for r in walk_local(iv.node) if isinstance(r, ast.Return) and r.value is not None
+                  and not (isinstance(r.value, ast.Constant) and r.value.value in (False, None))]
+    at_top = [r for r in maybe_true if
+              (isinstance(r.value, ast.Constant) and r.value.value is True and any(isinstance(p, ast.If) and "top_instance" in norm(p.test) for p in parent_chain(r)))
+              or (isinstance(r.value, ast.Compare) and "top_instance" in norm(r.value))]
+    if maybe_true and len(at_top) == len(maybe_true):
+        R.ok("H4", "validity is established only at the netlist's top instance", iv.loc(at_top[0]))
     else:
         R.bad("H4", "%s|true" % iv.key, iv.loc(), "is_valid returns True somewhere other than the comparison with the netlist's top instance")
     # H6
